@@ -4,7 +4,7 @@
    dup_identifier_in_transaction); be_holds P be = the backend maps the identifier of every named node of P to that
    node's own document.  Text level (json text, expression strings, float repr) is outside the model. *)
 From Coq Require Import String List ZArith QArith Bool.
-Require Import QV.C10.Model QV.C10.Spec QV.C10.Iface QV.C10.Hist QV.C10.SpecHist QV.C10.Proofs QV.C10.Proofs_store QV.C10.Proofs_share QV.C10.Proofs_iface QV.C10.Proofs_guard QV.C10.Proofs_hist QV.C10.Witness QV.C10.Witness_hist.
+Require Import QV.C10.Model QV.C10.Spec QV.C10.Iface QV.C10.Hist QV.C10.SpecHist QV.C10.Proofs QV.C10.Proofs_store QV.C10.Proofs_share QV.C10.Proofs_iface QV.C10.Proofs_guard QV.C10.SpecInl QV.C10.Proofs_guard2 QV.C10.Proofs_hist QV.C10.Witness QV.C10.Witness_hist.
 Import ListNotations.
 Open Scope string_scope.
 
@@ -204,3 +204,18 @@ Theorem C10_store_refuted_noop :
   load 8 (hbe (fst (hrun2 (empty_h []) n_ops))) fresh_l "s" = Err EKey.
 Proof. exact noop_store_refuted. Qed.
 Print Assumptions C10_store_refuted_noop.
+
+(* ---- round 3: guard tightness below inline children -------------------------------------------------------------------- *)
+(* inl_cs p = all dict keys in p's own document are strings: p's own dicts and, recursively, those of the unnamed templates
+   embedded in it.  EVERY template with an integer channel key anywhere in its inline part is loaded as a different template
+   or not at all, for every loader state and every resolver that answers references with named objects (whatever the
+   decoder constructs has string keys throughout its inline part) *)
+Theorem C10_inline_int_key_lost : forall rs p st p' st', named_resolver rs -> inl_cs p = false ->
+  decode rs (to_data p) st = Ok (p', st') -> erase p' <> erase p.
+Proof. intros rs p st p' st' HR. exact (inline_int_key_lost rs HR p st p' st'). Qed.
+Print Assumptions C10_inline_int_key_lost.
+
+(* the class beyond C10_int_key_always_lost is not empty: own dicts fine, integer key in an unnamed child *)
+Theorem C10_inline_int_key_example : own_cs inl_w = true /\ inl_cs inl_w = false.
+Proof. exact inl_w_ok. Qed.
+Print Assumptions C10_inline_int_key_example.
